@@ -5,6 +5,7 @@ Correspondence: the real constructors (+ frame assembly) vs the Lean model
 oracle: the property's statement evaluated on the real objects — a legal
 construction decodes back to an equal object with the same str(), no two
 different objects share a (frame, device type), illegal arguments raise."""
+from common import exc_name  # noqa: E402
 from props import cmdcommon as cc
 from gen import _registry as reg_
 from common import tok
@@ -137,7 +138,7 @@ class Run:
         try:
             cmd = build()
         except Exception as e:  # noqa
-            ans = "err " + type(e).__name__
+            ans = "err " + exc_name(e)
             if legal is True:
                 self.corr.violate("construct:" + line.split()[1], line, "accepted", ans,
                                   "a legal construction was refused")
